@@ -110,6 +110,26 @@ type VTSlice []byte
 
 func (v VTSlice) MarshalText() ([]byte, error) { return append([]byte("b:"), v...), nil }
 
+// slice and map kinds with text methods on the pointer receiver: null clears them without calling the method
+type PTSlice []string
+
+func (v PTSlice) MarshalText() ([]byte, error) { return []byte(strings.Join(v, ",")), nil }
+func (v *PTSlice) UnmarshalText(b []byte) error {
+	*v = append(*v, strings.Split(string(b), ",")...)
+	return nil
+}
+
+type PTMap map[string]int
+
+func (v PTMap) MarshalText() ([]byte, error) { return []byte(fmt.Sprintf("len=%d", len(v))), nil }
+func (v *PTMap) UnmarshalText(b []byte) error {
+	if *v == nil {
+		*v = PTMap{}
+	}
+	(*v)[string(b)] = len(b)
+	return nil
+}
+
 type VMMap map[string]int
 
 func (v VMMap) MarshalJSON() ([]byte, error) { return []byte(fmt.Sprintf(`[%d]`, len(v))), nil }
